@@ -43,6 +43,7 @@ def build(spec, counter, expected, prefix_fn):
             name = (f"r{counter[0]}",)
             counter[0] += 1
             s, e = mm.add_resource(r, name=name, size=size, addr=addr)
+            list(mm.all_resources())
             expected.append(prefix_fn(dict(resource=r, start=s, end=e, width=spec["dw"], path=(name,))))
         else:
             _, child_spec, kind, name, addr = item
@@ -50,6 +51,7 @@ def build(spec, counter, expected, prefix_fn):
             child = build(child_spec, counter, sub_expected, lambda rec: rec)
             sparse = {"same": None, "sparse": True, "dense": False}[kind]
             b, stop, ratio = mm.add_window(child, name=name, addr=addr, sparse=sparse)
+            list(mm.all_resources()); list(mm.window_patterns())      # queries between the mutations
             for rec in sub_expected:
                 # the sentence of the property: [b + s/r, b + e/r), width x r, window name prefixed
                 assert rec["start"] % ratio == 0 and rec["end"] % ratio == 0
